@@ -33,7 +33,9 @@ THEOREMS['C12'] = ['FB.C12_preClean_frame', 'FB.C12_clean_noop_without_cache', '
                    'FB.C12_impl_clean_is_preClean']
 THEOREMS['C15'] = ['FB.C15_spec_build_refused', 'FB.C15_impl_build_refused', 'FB.C15_spec_clean_refused']
 THEOREMS['C18'] = ['FB.sanitize_shape', 'FB.sanitize_idempotent', 'FB.sanitize_rejects_iff', 'FB.isEqual_refl',
+                   'FB.isEqual_symm', 'FB.isEqual_trans', 'FB.toHashable_iff',
                    'FB.isEqual_int_float', 'FB.isEqual_bool_num', 'FB.isEqual_list_tuple']
+THEOREMS['C07'] = ['FB.C07_subkey_iff', 'FB.C07_lookupFile_needs_equal_args', 'FB.toHashable_iff', 'FB.sanitize_idempotent']
 
 # oracle categories (hist.analyze) that are a failing input of the property on the real code
 ORACLE = {
